@@ -98,3 +98,26 @@ Proof.
 Qed.
 
 
+
+(* ---------------------------------------------------------------- *)
+(* oriented outwards: a surface face belongs to exactly one element, is one
+   of that element's own faces in table orientation, and therefore points
+   away from the element's vertex mean whenever the element is a convex cell *)
+Theorem surface_outward :
+  forall (pos : Z -> RV3) m, wf_mesh m = true ->
+  forall f, In f (surface_faces m) ->
+    exists e, owners f m = [e] /\ In f (elem_faces e)
+              /\ (cell_outward pos e -> (0 < odotR pos e f)%R).
+Proof.
+  intros pos m Hwf f Hf.
+  destruct (proj1 (surface_is_boundary m Hwf f) Hf) as [Hall Hown].
+  destruct (owners f m) as [| e [| e' r]] eqn:E; simpl in Hown; try discriminate.
+  exists e. split; [reflexivity |].
+  assert (Hfe : In f (elem_faces e)).
+  { unfold all_faces in Hall. apply in_flat_map in Hall. destruct Hall as [e0 [He0 Hf0]].
+    assert (H0 : In e0 (owners f m)).
+    { unfold owners. apply filter_In. split; [exact He0 |].
+      apply existsb_exists. exists f. split; [exact Hf0 | apply same_face_refl]. }
+    rewrite E in H0. destruct H0 as [<- | []]. exact Hf0. }
+  split; [exact Hfe |]. intro Hc. apply Hc. exact Hfe.
+Qed.
